@@ -200,8 +200,8 @@ Print Assumptions C08_ratio_reduce_signed.
    (C08_add_known_fallback_tight).
    The same is proved uniformly for + - * below (C08_op_*, C08_full_addsubmul_outside).
    ... and for / (C08_div_outcome, C08_full_outside).
-   STILL OPEN: the variadic folds of the builtins (+ - * / applied to argument lists), modulo's
-   inexactness, abs floor ceiling truncate numerator denominator expt. *)
+   The variadic procedures, abs floor ceiling truncate round numerator denominator expt: see the
+   section "Work package c08b" at the end of this file.  STILL OPEN: when a fold is inexact. *)
 Definition C08_inexact_only_if_stmt : Prop := forall p a b r (known_fallback : num -> num -> bool),
   wfb a = true -> wfb b = true -> is_exact a = true -> is_exact b = true ->
   known_fallback a b = false -> num_add p a b = Ok r -> is_exact r = false ->
@@ -344,7 +344,7 @@ Print Assumptions C08_inexact_only_if_refuted.
    class: (1) i64::MIN by -1/1 panics (MIN % -1, both profiles); (2) rem + divisor outside
    i32: checked_add answers None, modulo continues on floats and the result is inexact.
    Outside it the theorem holds for every pair of integer representations, both profiles.
-   STILL OPEN: abs floor ceiling truncate numerator denominator expt. *)
+   Two integer-valued Rationals: C08_modulo_exact_rr below. *)
 Definition C08_modulo_exact_stmt : Prop := forall p a b za zb,
   wfb a = true -> wfb b = true -> int_of a = Some za -> int_of b = Some zb -> zb <> 0 ->
   both_rational a b = false ->
